@@ -71,6 +71,7 @@ func (t *wScreen) Init() error {
 	js.Global().Set("onMouseClick", js.FuncOf(t.unset))
 	js.Global().Set("onMouseMove", js.FuncOf(t.unset))
 	js.Global().Set("onFocus", js.FuncOf(t.unset))
+	js.Global().Set("onPaste", js.FuncOf(t.unset))
 
 	return nil
 }
